@@ -416,6 +416,33 @@ func Program() diffrun.Program {
 		o(id, res)
 	}
 `)
+	// deferred and go'd calls of js.Object methods (they are wrapped in a proxy function), variadic ones with and without "..."
+	w(`	{
+		arr := g.Get("Array").New()
+		ob := g.Get("Object").New()
+		xs := []interface{}{7, "eight"}
+		func() {
+			defer arr.Call("push", 1, "two")
+			defer arr.Call("push")
+			defer arr.Call("push", xs...)
+			defer ob.Set("k", "v")
+			defer ob.Set("gone", 1)
+			defer arr.SetIndex(0, "first")
+			defer g.Get("verifProbe").Invoke(1, 2)
+			defer g.Get("VerifCtor").New(3)
+			arr.Call("push", 0)
+		}()
+		func() {
+			defer ob.Delete("gone")
+		}()
+		done := make(chan bool)
+		go arr.Call("push", "from-go", 9)
+		go func() { done <- true }()
+		<-done
+		o("deferred-js", g.Call("verifProbe", arr).String()+"|"+g.Call("verifProbe", ob).String())
+	}
+`)
+	exp = append(exp, "C11/deferred-js Array:[string:0066,0069,0072,0073,0074,number:7,string:0065,0069,0067,0068,0074,number:1,string:0074,0077,006f,string:0066,0072,006f,006d,002d,0067,006f,number:9]|Object:{k=string:0076}")
 	// blocking Go code called from a JavaScript callback fails with the documented error and leaves the scheduler usable
 	w(`	ch := make(chan int)
 	g.Set("goBlocks", func() int { return <-ch })
